@@ -24,15 +24,22 @@ func init() {
 	core.Register(&core.Prop{
 		ID:    "C01",
 		Level: "exploration",
-		Rule: "honest issuance runs of types 1,2,3,5 with every message crossing the wire as bytes (client Marshal -> issuer-side Unmarshal -> Evaluate -> response bytes -> Finalize); " +
+		Rule: "honest issuance runs of types 1,2,3,5 with every message crossing the wire as bytes (client Marshal -> issuer-side Unmarshal, every third time into a long-lived request object that decoded other requests before -> Evaluate -> response bytes -> Finalize); " +
 			"cases = key x challenge (boundary lengths 0..65535, marshalled TokenChallenges, seeded) x nonce(s) x shape (type-5 batch size, type-3 origin-name length, fixed-blind vs random-blind entry point). " +
 			"Oracle: no error anywhere; token bytes = type||nonce||SHA-256(challenge)||key id||authenticator assembled by the harness; authenticator length 48/256/256/64; validity decided by circl FullEvaluate (types 1,5) or crypto/rsa.VerifyPSS (types 2,3). " +
 			"distinct_nontrivial = distinct (type, key, challenge length, shape) tuples",
-		Floors:      []string{"type1_tokens_valid", "type2_tokens_valid", "type3_tokens_valid", "type5_tokens_valid", "type1_withblind", "type2_withblind", "type5_withblinds", "request_decoded_by_issuer_side_decoder"},
+		Floors:      []string{"type1_tokens_valid", "type2_tokens_valid", "type3_tokens_valid", "type5_tokens_valid", "type1_withblind", "type2_withblind", "type5_withblinds", "request_decoded_by_issuer_side_decoder", "decoder_object_reused"},
 		Assumptions: []string{"circl oprf/blindrsa, go-hpke and crypto/rsa are the trusted base", "client-internal randomness (crypto/rand) is covered by repetition and by the WithBlind entry points"},
 		Run:         runC01,
 	})
 }
+
+// issuer-side request objects that live as long as the worker and decode one request after another
+var (
+	c01Reuse1 = new(type1.BasicPrivateTokenRequest)
+	c01Reuse2 = new(type2.BasicPublicTokenRequest)
+	c01Reuse5 = new(type5.BatchedPrivateTokenRequest)
+)
 
 type c01Bad func(key, what string, detail map[string]any)
 
@@ -120,6 +127,10 @@ func c01Type1(c *core.Ctx, i int, keys []*oprf.PrivateKey) {
 		}
 		reqBytes := clone(st.Request().Marshal())
 		dec := new(type1.BasicPrivateTokenRequest)
+		if i%3 == 2 {
+			dec = c01Reuse1 // an issuer-side object that decoded other requests before
+			c.Class("decoder_object_reused")
+		}
 		if !dec.Unmarshal(clone(reqBytes)) {
 			bad("request-undecodable", "issuer-side decoder rejected the client's request bytes", map[string]any{"request": core.Hex(reqBytes)})
 			return
@@ -250,6 +261,10 @@ func c01Type2(c *core.Ctx, i int, keys []*rsa.PrivateKey) {
 		}
 		reqBytes := clone(st.Request().Marshal())
 		dec := new(type2.BasicPublicTokenRequest)
+		if i%3 == 2 {
+			dec = c01Reuse2
+			c.Class("decoder_object_reused")
+		}
 		if !dec.Unmarshal(clone(reqBytes)) {
 			bad("request-undecodable", "issuer-side decoder rejected the client's request bytes", map[string]any{"request": core.Hex(reqBytes)})
 			return
@@ -345,6 +360,10 @@ func c01Type5(c *core.Ctx, i int, keys []*oprf.PrivateKey) {
 		}
 		reqBytes := clone(st.Request().Marshal())
 		dec := new(type5.BatchedPrivateTokenRequest)
+		if i%3 == 2 {
+			dec = c01Reuse5
+			c.Class("decoder_object_reused")
+		}
 		if !dec.Unmarshal(clone(reqBytes)) {
 			bad("request-undecodable", "issuer-side decoder rejected the client's request bytes", map[string]any{"request": core.Hex(reqBytes)})
 			return
